@@ -3,6 +3,7 @@
 Apply a textual mutation to a scratch copy of /repo (outside /repo and /verif), run the
 check(s) against it and report whether they fire.  Evidence files are restored afterwards."""
 import os, shutil, subprocess, sys, tempfile
+VERIF = __import__("os").path.dirname(__import__("os").path.dirname(__import__("os").path.abspath(__file__)))  # this checkout, wherever it is
 ids, rel, old, new = sys.argv[1].split(","), sys.argv[2], sys.argv[3], sys.argv[4]
 tier = sys.argv[5] if len(sys.argv) > 5 else "quick"
 d = tempfile.mkdtemp(prefix="mut_", dir="/tmp")
@@ -17,9 +18,9 @@ try:
         print("MUT-ERROR: pattern occurs %d times" % n); sys.exit(3)
     open(p, "w").write(s.replace(old, new))
     for i in ids:
-        ev = "/verif/evidence/%s.json" % i
+        ev = VERIF + "/evidence/%s.json" % i
         bak = open(ev).read() if os.path.exists(ev) else None
-        r = subprocess.run(["/verif/check", i, tier], env=dict(os.environ, VERIF_REPO=d), capture_output=True, text=True)
+        r = subprocess.run([VERIF + "/check", i, tier], env=dict(os.environ, VERIF_REPO=d), capture_output=True, text=True)
         lines = [l for l in r.stdout.splitlines() if l.startswith(("VIOLATION", "  what", "INCONCLUSIVE", "KNOWN"))]
         print("%s rc=%d %s" % (i, r.returncode, "KILLED" if r.returncode == 1 else "SURVIVED"))
         for l in lines[:4]: print("   ", l[:300])
